@@ -313,8 +313,9 @@ def finish(ctx, rule, exhaustive=False, explanation=None):
         cov["notes"] = ctx.notes
     ev = {"property_id": ctx.id, "tier": ctx.tier, "seed": ctx.seed, "level": ctx.level, "coverage": cov,
           "assumptions": ctx.assumptions, "wall_s": round(time.time() - ctx.t0, 1), "violations": len(ctx.violations)}
-    os.makedirs(os.path.join(VERIF, "evidence"), exist_ok=True)
-    with open(os.path.join(VERIF, "evidence", ctx.id + ".json"), "w") as f:
+    evdir = os.environ.get("VERIF_EVIDENCE_DIR") or os.path.join(VERIF, "evidence")   # seeded-change runs write elsewhere
+    os.makedirs(evdir, exist_ok=True)
+    with open(os.path.join(evdir, ctx.id + ".json"), "w") as f:
         json.dump(ev, f, indent=1)
         f.write("\n")
     for k in ctx.known:
